@@ -100,8 +100,11 @@ def run_case(case, workdir):
             continue
         for limit in [None] + list(range(ref.nlevels)):
             k += 1
-            out = os.path.join(workdir, "out%d" % k)
-            sub = {"variables": sel, "limit_level": limit}
+            # ONE output path per level limit, written again and again by the successive requests (same levels and binary
+            # file names, other fields - often as many as before): what a request writes must not depend on what an earlier
+            # request left there
+            out = os.path.join(workdir, "out_limit_%s" % limit)
+            sub = {"variables": sel, "limit_level": limit, "output": "holds the result of the previous request with this limit" if os.path.isdir(out) else "fresh"}
             with vpool.controlled() as ctl:
                 st, val = call(lambda: Colander(plotfile=path, limit_level=limit, output=out, variables=sel).strain())
             present = names if sel == ["all"] else [v for v in sel if v in names]
@@ -123,8 +126,6 @@ def run_case(case, workdir):
             if pp.finest + 1 == exp.nlevels and all(sorted(pp.levels[lv].index) == sorted(exp.boxes[lv]) for lv in range(exp.nlevels)):
                 oracle.compare_minmax_tokens(rec, sub, pp, rows)
             oracle.taste_accepts(rec, sub, out)
-            import shutil
-            shutil.rmtree(out, ignore_errors=True)
     # the command line entry point must write what the API writes (same selection, same limit)
     if len(set(names)) == len(names):
         import amr_kitchen.colander.cli as ccli
